@@ -344,9 +344,13 @@ def nt_unital(case):
 # ------------------------------------------------------------------------------------------
 @st.composite
 def _comp_case(draw):
-    fam = draw(st.sampled_from(["isometry", "isometry", "isometry", "perm", "measure_prepare"]))
+    fam = draw(st.sampled_from(["isometry", "isometry", "isometry", "perm", "measure_prepare", "mixed_dtype"]))
     d = draw(st.integers(1, 4))
     r = draw(st.integers(1, 5))
+    if fam == "mixed_dtype":
+        # operators of different dtypes in one list, narrowest first (added after seeded change C05-s3 was missed)
+        d = max(d, 2)
+        r = draw(st.integers(2, 3))
     if fam == "perm":
         r = 1
     elif fam == "measure_prepare":
@@ -382,6 +386,20 @@ def _tp_family(case, d_in=None, d_out=None):
             k[f[a], a] = 1
             ks.append(k)
         return ks
+    if fam == "mixed_dtype":
+        # K_0 = integer projector onto a coordinate subset S, K_1 = (complex unitary)(I - P_S) [x sqrt(w)],
+        # K_2 = (real orthogonal)(I - P_S) x sqrt(1 - w):  sum K^dagger K = I exactly up to rounding
+        m = int(g.integers(1, d_in))
+        mask = np.zeros(d_in, dtype=np.int64)
+        mask[g.permutation(d_in)[:m]] = 1
+        k0 = np.diag(mask)
+        rest = np.diag(1 - mask).astype(float)
+        u1 = gen.rand_unitary(int(g.integers(0, 2**62)), d_in, False)
+        if r == 2:
+            return [k0, u1 @ rest]
+        w = float(g.uniform(0.2, 0.8))
+        o2 = gen.rand_unitary(int(g.integers(0, 2**62)), d_in, True)
+        return [k0, np.sqrt(1 - w) * (o2 @ rest), np.sqrt(w) * (u1 @ rest)]
     v = gen.rand_isometry(int(g.integers(0, 2**62)), d_out * r, d_in, case["real"])
     return [np.array(v[k * d_out : (k + 1) * d_out, :]) for k in range(r)]
 
@@ -420,6 +438,8 @@ def check_complementary(case):
 
 def nt_comp(case):
     if case["r"] >= 2 and case["d"] >= 2:
+        if case["fam"] == "mixed_dtype":
+            return "comp:mixed-dtype-list"
         return "comp:r>=2,d>=2" + (",pure" if case["pure"] else "") + ("" if case["real"] or case["fam"] != "isometry" else ",complex")
     return None
 
